@@ -7,7 +7,7 @@
 //                                                                                   held (Deleter), T try_pop, M move-assign
 //   kind S : ObjectPool strict mode, reserve_and_clear(p1)                     ops: N new object, G pop, R push(first held),
 //                                                                                   D drop first held (Deleter), T try_pop
-//   kind B : Counting(Batch(batch size p1; p1 = 0: set_batch_size never called)(recording upstream)), p2 threads;
+//   kind B : Counting(Batch(batch size p1; p1 = 0: set_batch_size never called = default 16)(recording upstream)), p2 threads;
 //            program = ONE global op sequence a<t> allocate(), n<t>:<k> allocate(k), f<t> deallocate(first held),
 //            m<t>:<k> deallocate(first k held); thread t executes its ops when the baton reaches them
 //   program (C,H,P,S) = threads separated by '|', ops separated by ','
@@ -175,11 +175,13 @@ struct Obj {
   static std::vector<int>* destroyed;
   static std::vector<int>* alive;
   explicit Obj(int i) : id(i) {}
-  ~Obj() { destroyed->push_back(id); (*alive)[(size_t)id] = 0; }
+  static std::function<void(int)>* hook;
+  ~Obj() { destroyed->push_back(id); (*alive)[(size_t)id] = 0; if (hook) (*hook)(id); }
   static void operator delete(void*) {}          // memory is kept until the end of the case (ids stay readable)
 };
 std::vector<int>* Obj::destroyed = nullptr;
 std::vector<int>* Obj::alive = nullptr;
+std::function<void(int)>* Obj::hook = nullptr;
 
 static void run_pool(const char* id, bool strict, size_t pcap, unsigned long long seed, int strategy,
                      const std::string& prog) {
@@ -201,9 +203,19 @@ static void run_pool(const char* id, bool strict, size_t pcap, unsigned long lon
   auto* pool = new Pool;
   pool->reserve_and_clear(pcap);
   if (!strict) pool->set_creator([&] { pool_created++; return std::unique_ptr<Obj>(make()); });
-  pool->set_recycler([&](Obj& o) { recycles[(size_t)o.id]++; });
+  static thread_local int cur_t = -1;
+  std::vector<int> in_call(nt, 0), in_call_obj(nt, -1), dropped_in_call(nt, 0);
+  std::function<void(int)> hook = [&](int oid) {
+    if (cur_t >= 0 && in_call_obj[(size_t)cur_t] == oid) dropped_in_call[(size_t)cur_t] = 1;
+  };
+  Obj::hook = &hook;
+  std::vector<int> unused_(0);     // recycler runs on the pushed object inside the running push of thread t
+  pool->set_recycler([&](Obj& o) {
+    recycles[(size_t)o.id]++;
+    if (cur_t >= 0 && in_call_obj[(size_t)cur_t] == o.id) in_call[(size_t)cur_t]++;
+  });
   struct Held { Obj* raw; Ptr wrapped; };
-  std::vector<std::vector<Held>> held(nt);
+  std::vector<std::list<Held>> held(nt);   // list: no move-assignment of Ptr behind the scenes
   std::vector<std::string> out(nt);
   auto got = [&](size_t t, Ptr&& p, const char* tag) {
     if (!p) { out[t] += (out[t].empty() ? "" : ",") + std::string(tag) + "-"; return; }
@@ -217,6 +229,7 @@ static void run_pool(const char* id, bool strict, size_t pcap, unsigned long lon
   std::vector<std::function<void()>> bodies;
   for (size_t t = 0; t < nt; ++t) {
     bodies.push_back([&, t] {
+      cur_t = (int)t;
       for (auto& op : threads[t]) {
         switch (op.k) {
           case 'O': case 'G': got(t, pool->pop(), "O"); break;
@@ -230,29 +243,30 @@ static void run_pool(const char* id, bool strict, size_t pcap, unsigned long lon
           case 'U': case 'R': case 'D': {
             if (held[t].empty()) { out[t] += (out[t].empty() ? "" : ",") + std::string("_"); break; }
             Held h = std::move(held[t].front());
-            held[t].erase(held[t].begin());
+            held[t].pop_front();
             int oid = h.raw->id;
-            int rc0 = recycles[(size_t)oid];
-            size_t d0 = destroyed.size();
+            in_call[t] = 0; in_call_obj[t] = oid; dropped_in_call[t] = 0;
             holder[(size_t)oid] = -2 - (int)t;
             pushes[(size_t)oid]++;
             if (op.k == 'D' && h.wrapped) h.wrapped.reset();                 // Deleter -> pool->push
             else if (h.wrapped) pool->push(std::move(h.wrapped));
             else pool->push(std::unique_ptr<Obj>(h.raw));
-            if (recycles[(size_t)oid] != rc0 + 1) recycle = false;           // exactly one recycler run per returned object
+            if (in_call[t] != 1) recycle = false;                            // exactly one recycler run per returned object
+            in_call_obj[t] = -1;
             if (holder[(size_t)oid] == -2 - (int)t) holder[(size_t)oid] = -1;
-            bool dropped = destroyed.size() > d0 && !alive[(size_t)oid];
+            bool dropped = dropped_in_call[t] != 0;                          // destroyed by this very push
             out[t] += (out[t].empty() ? "" : ",") + (strict ? std::string("F") : std::string("U") + (dropped ? "1" : "0"));
             if (nt == 1 && !strict && pool->free_object_number() > pcap) seqbound = false;
           } break;
           case 'M': {                                                        // move-assign a fresh pop over the first held
             if (held[t].empty() || !held[t].front().wrapped) break;
             int old = held[t].front().raw->id;
-            int rc0 = recycles[(size_t)old];
+            in_call[t] = 0; in_call_obj[t] = old;
             pushes[(size_t)old]++;
             holder[(size_t)old] = -2 - (int)t;
             held[t].front().wrapped = pool->pop();
-            if (recycles[(size_t)old] != rc0 + 1) recycle = false;
+            if (in_call[t] != 1) recycle = false;
+            in_call_obj[t] = -1;
             if (holder[(size_t)old] == -2 - (int)t) holder[(size_t)old] = -1;
             Obj* nw = held[t].front().wrapped.get();
             held[t].front().raw = nw;
@@ -293,6 +307,7 @@ static void run_pool(const char* id, bool strict, size_t pcap, unsigned long lon
          created, owner, recycle, leak, overflow, foreign, seqbound);
   for (auto& hs : held) for (auto& h : hs) { h.wrapped.release(); delete h.raw; }
   delete pool;
+  Obj::hook = nullptr;
   for (void* m : mem) ::operator delete(m);
 }
 
@@ -317,7 +332,7 @@ static void run_batch(const char* id, size_t batch, size_t nt, unsigned long lon
   std::vector<std::vector<void*>> held(nt);
   std::vector<std::vector<int>> rest(nt);
   bool owner = true, known = true, count_ok = true;
-  volatile size_t turn = 0;
+  volatile size_t turn = 0, started = 0;
   auto take = [&](size_t t, void* p) {
     auto it = up.ids.find(p);
     if (it == up.ids.end()) { known = false; return; }
@@ -329,6 +344,9 @@ static void run_batch(const char* id, size_t batch, size_t nt, unsigned long lon
   std::vector<std::function<void()>> bodies;
   for (size_t t = 0; t < nt; ++t) {
     bodies.push_back([&, t] {
+      (void)ba->_cache.local();                   // every thread owns its Slot (babylon thread id) for the whole case
+      started = started + 1;
+      while (started != nt) sched_yield();
       for (size_t i = 0; i < ops.size(); ++i) {
         if (ops[i].t != t) continue;
         while (turn != i) sched_yield();
